@@ -135,6 +135,10 @@ var faultSnippets = map[string]string{
 	"range-noniter":         `forRange k := fobj { t = 1 }`,
 	"range-int":             `forRange k := fnum { t = 1 }`,
 	"four-level":            `t = fobj.In.X.Y`,
+	"panic-three":           `fobj.In.Boom()`,
+	"undef-root-3":          `t = nosuch.In.I`,
+	"local-root-3":          "lo = fobj\n    t = lo.NilIn.I",
+	"local-root-3-if":       "lo = fobj\n    if lo.NilIn.I > 1 { t = 1 }",
 	"unexp-return":          `return fobj.hidden`,
 	"unexp-return-local":    "t = fobj.hidden\n    return t",
 	"unexp-arg":             `ev(fobj.hidden)`,
